@@ -1,6 +1,6 @@
 (** Property C14 — the theorems the check counts as obligations.  Nothing but
     statements closed by [exact] and [Print Assumptions]. *)
-From HS Require Import Base.Prelude C14.Model C14.LsmProofs C14.SeqProofs C14.ConcProofs C14.KvTxnModel C14.KvTxnProofs C14.BtModel C14.BtProofs.
+From HS Require Import Base.Prelude C14.Model C14.LsmProofs C14.SeqProofs C14.ConcProofs C14.KvTxnModel C14.KvTxnProofs C14.BtModel C14.BtProofs C14.BtRep C14.BtIns C14.BtOps.
 Local Open Scope Z_scope.
 
 (** LSM tree, sequential operations: after ANY sequence of put/delete (any
@@ -100,9 +100,35 @@ Theorem c14_si_snapshot_refuted : ~ si_statement.
 Proof. exact si_snapshot_refuted. Qed.
 Print Assumptions c14_si_snapshot_refuted.
 
+(** B-tree (btree.py: B+-tree over a heap of mutable node objects, preemptive
+    split of full children on the way down, deletion without rebalancing),
+    sequential API: after ANY sequence of put_sync / delete / get_sync / scan,
+    for every order >= 2, get_sync returns the reference map's value
+    (C14/BtRep.v: representation predicate with key bounds, contents and
+    heap footprint; C14/BtIns.v: leaf update, split of a full child, descent
+    and reassembly; C14/BtOps.v: delete, scan, root split, invariant). *)
+Theorem c14_btree_get_refines_map : forall ord ops k, 2 <= ord ->
+  bt_get_sync (bt_run ord ops) k = spec_of (map conv_op ops) k.
+Proof. exact bt_get_refines_map. Qed.
+Print Assumptions c14_btree_get_refines_map.
+
+(** B-tree scans return exactly the live keys of the range in increasing order. *)
+Theorem c14_btree_scan_exact : forall ord ops lo hi, 2 <= ord ->
+  let r := bt_scan (bt_run ord ops) lo hi in
+  strictly_increasing (map fst r) /\
+  forall k v, In (k, v) r <-> (lo <= k < hi /\ spec_of (map conv_op ops) k = Some v).
+Proof. exact bt_scan_exact. Qed.
+Print Assumptions c14_btree_scan_exact.
+
+(** B-tree delete reports whether the key was live (deleted keys stay deleted:
+    [c14_btree_get_refines_map] with the reference map's delete). *)
+Theorem c14_btree_delete_reports : forall ord ops k, 2 <= ord ->
+  snd (bt_delete (bt_run ord ops) k) = (if spec_of (map conv_op ops) k then true else false).
+Proof. exact bt_delete_reports. Qed.
+Print Assumptions c14_btree_delete_reports.
+
 (** B-tree, overlapping operations: REFUTED (known finding
-    C14-btree-get-overlaps-split).  The B-tree's sequential refinement of a
-    map is not proved (correspondence and oracle only). *)
+    C14-btree-get-overlaps-split). *)
 Theorem c14_btree_overlap_refuted : ~ bt_overlap_statement.
 Proof. exact bt_overlap_refuted. Qed.
 Print Assumptions c14_btree_overlap_refuted.
